@@ -1,31 +1,21 @@
-(* P11/EntryFacts.v — the guard prefixes of the entry points that start a keyed operation or take a mechanism,
-   proved over their REGENERATED translation (gen/Gen_Entry.v).  "Reaching the rest of the function" is expressed
-   with a sentinel result that no guard can produce.  (C07, C02 wrap refusal, C01 for key-using calls) *)
+(* P11/EntryFacts.v — the guards of the entry points that start a keyed operation, create an object or take a mechanism,
+   proved over their REGENERATED translation (gen/Gen_Entry.v, one record of named parameters per function).
+   "The body is reached" is expressed with a sentinel: `zz_rest` (the part of the function the translator does not
+   express: setting up the session's operation state) or, for functions translated to the end, the worker they finally
+   call is instantiated with a value no guard can return.  (C07, C01, C02) *)
 From Coq Require Import List NArith Bool Lia ZifyBool ZifyN.
 From SoftHSM Require Import Gen_Const Gen_Entry.
 Import ListNotations.
 Local Open Scope N_scope.
 
-Definition SENTINEL : N := 18446744073709551616.       (* 2^64: not a CK_RV *)
+Definition SENTINEL : N := 18446744073709551616.
 Definition bounded (hr : N -> N -> N -> N) : Prop := forall a b c, hr a b c < SENTINEL.
 Definition bounded1 (f : N -> N) : Prop := forall a, f a < SENTINEL.
 
-(* walk down the guard chain: always split on the HEAD condition, so that refused paths end at once in a constant *)
-Ltac open_guards f :=
-  cbv beta zeta delta [f];
+Ltac open_head :=
   repeat match goal with
          | |- (if ?c then _ else _) = _ -> _ => destruct c eqn:?
          end; intros Hres; try (exfalso; cbv [SENTINEL] in Hres; discriminate Hres).
-
-Ltac bound_contra hr Hb :=
-  match goal with
-  | H : hr ?a ?b ?c = SENTINEL |- _ => pose proof (Hb a b c) as Hx; rewrite H in Hx; vm_compute in Hx; discriminate Hx
-  end.
-
-(* ---- the eight keyed *Init entry points: what must hold for the body to be reached ------------------------ *)
-Record init_ok (initialised : N) (session optype token key : N) (keyvalid : bool) (access : N) (usage permitted : bool) : Prop := {
-  io_init : initialised <> 0; io_sess : session <> 0; io_op : optype = SESSION_OP_NONE; io_tok : token <> 0;
-  io_key : key <> 0 /\ keyvalid = true; io_access : access = CKR_OK; io_usage : usage = true; io_perm : permitted = true }.
 
 Ltac norm :=
   repeat match goal with
@@ -39,11 +29,215 @@ Ltac norm :=
          | H : (_ =? _) = false |- _ => apply N.eqb_neq in H
          end.
 
-Ltac finish_init acc :=
-  norm; split; [assumption|]; subst acc;
+Ltac ok_part :=
   cbv [CKA_TOKEN CKA_PRIVATE CKA_ENCRYPT CKA_DECRYPT CKA_SIGN CKA_VERIFY CKA_WRAP CKA_UNWRAP CKA_DERIVE SESSION_OP_NONE CKR_OK];
   constructor; try split; try assumption; try reflexivity;
   try match goal with H : ?x <> false |- ?x = true => destruct x; [reflexivity|congruence] end.
+
+Ltac case_eqbs := repeat match goal with |- context [(?a =? ?b)] => destruct (a =? b) eqn:? end.
+
+Ltac fits tbl :=
+  match goal with H : ?m = _ |- context [tbl ?m] => rewrite H end;
+  cbv - [N.eqb orb negb andb]; cbn [N.eqb Pos.eqb];
+  case_eqbs; cbn [negb andb orb] in *; try reflexivity; try discriminate; try congruence;
+  try (exfalso; match goal with H : ?a = ?c, H2 : (?a =? ?c) = false |- _ => rewrite H in H2; cbn [N.eqb Pos.eqb] in H2; discriminate H2 end);
+  try (exfalso; lia).
+
+Record init_ok (initialised : N) (session optype token key : N) (keyvalid : bool) (access : N) (usage permitted : bool) : Prop := {
+  io_init : initialised <> 0; io_sess : session <> 0; io_op : optype = SESSION_OP_NONE; io_tok : token <> 0;
+  io_key : key <> 0 /\ keyvalid = true; io_access : access = CKR_OK; io_usage : usage = true; io_perm : permitted = true }.
+
+Definition mac_fits (m kt : N) : bool :=
+  if m =? CKM_MD5_HMAC then (kt =? CKK_GENERIC_SECRET) || (kt =? CKK_MD5_HMAC)
+  else if m =? CKM_SHA_1_HMAC then (kt =? CKK_GENERIC_SECRET) || (kt =? CKK_SHA_1_HMAC)
+  else if m =? CKM_SHA224_HMAC then (kt =? CKK_GENERIC_SECRET) || (kt =? CKK_SHA224_HMAC)
+  else if m =? CKM_SHA256_HMAC then (kt =? CKK_GENERIC_SECRET) || (kt =? CKK_SHA256_HMAC)
+  else if m =? CKM_SHA384_HMAC then (kt =? CKK_GENERIC_SECRET) || (kt =? CKK_SHA384_HMAC)
+  else if m =? CKM_SHA512_HMAC then (kt =? CKK_GENERIC_SECRET) || (kt =? CKK_SHA512_HMAC)
+  else if m =? CKM_DES3_CMAC then (kt =? CKK_DES2) || (kt =? CKK_DES3)
+  else if m =? CKM_AES_CMAC then kt =? CKK_AES
+  else false.
+
+
+Ltac bound_contra :=
+  match goal with
+  | H : ?hr ?a ?b ?c = SENTINEL, Hb : bounded ?hr |- _ => pose proof (Hb a b c) as Hx; rewrite H in Hx; vm_compute in Hx; discriminate Hx
+  | H : ?f ?a = SENTINEL, Hb : bounded1 ?f |- _ => pose proof (Hb a) as Hx; rewrite H in Hx; vm_compute in Hx; discriminate Hx
+  end.
+
+(* ---- which key type a mechanism works on (the tables the theorems below establish from the code) ------------------ *)
+Definition sym_fits (m kt : N) : bool :=
+  if (m =? CKM_DES_ECB) || (m =? CKM_DES_CBC) || (m =? CKM_DES_CBC_PAD) then kt =? CKK_DES
+  else if (m =? CKM_DES3_ECB) || (m =? CKM_DES3_CBC) || (m =? CKM_DES3_CBC_PAD) then (kt =? CKK_DES2) || (kt =? CKK_DES3)
+  else if (m =? CKM_AES_ECB) || (m =? CKM_AES_CBC) || (m =? CKM_AES_CBC_PAD) || (m =? CKM_AES_CTR) || (m =? CKM_AES_GCM) then kt =? CKK_AES
+  else false.
+
+Definition rsa_crypt_fits (m kt : N) : bool :=
+  if (m =? CKM_RSA_PKCS) || (m =? CKM_RSA_X_509) || (m =? CKM_RSA_PKCS_OAEP) then kt =? CKK_RSA else false.
+
+Definition is_rsa_sig (m : N) : bool :=
+  existsb (N.eqb m) [CKM_RSA_PKCS; CKM_RSA_X_509; CKM_MD5_RSA_PKCS; CKM_SHA1_RSA_PKCS; CKM_SHA224_RSA_PKCS; CKM_SHA256_RSA_PKCS; CKM_SHA384_RSA_PKCS;
+                     CKM_SHA512_RSA_PKCS; CKM_RSA_PKCS_PSS; CKM_SHA1_RSA_PKCS_PSS; CKM_SHA224_RSA_PKCS_PSS; CKM_SHA256_RSA_PKCS_PSS; CKM_SHA384_RSA_PKCS_PSS; CKM_SHA512_RSA_PKCS_PSS].
+Definition is_dsa_sig (m : N) : bool := existsb (N.eqb m) [CKM_DSA; CKM_DSA_SHA1; CKM_DSA_SHA224; CKM_DSA_SHA256; CKM_DSA_SHA384; CKM_DSA_SHA512].
+Definition sig_fits (want_class m cls kt : N) : bool :=
+  (cls =? want_class) &&
+  (if is_rsa_sig m then kt =? CKK_RSA else if is_dsa_sig m then kt =? CKK_DSA else if m =? CKM_ECDSA then kt =? CKK_EC
+   else if m =? CKM_EDDSA then kt =? CKK_EC_EDWARDS else false).
+Definition sign_fits := sig_fits CKO_PRIVATE_KEY.
+Definition verify_fits := sig_fits CKO_PUBLIC_KEY.
+
+Theorem MacSignInit_guards (e : MacSignInit.env) :
+  bounded (MacSignInit.haveRead e) -> MacSignInit.zz_rest e = SENTINEL ->
+  MacSignInit.app e = SENTINEL ->
+  let key := MacSignInit.handleManager_getObject e (MacSignInit.hKey e) in
+  let kgb := MacSignInit.key_getBooleanValue e in
+  MacSignInit.pMechanism e <> 0 /\
+  init_ok (MacSignInit.this_isInitialised e) (MacSignInit.handleManager_getSession e (MacSignInit.hSession e)) (MacSignInit.session_getOpType e)
+          (MacSignInit.session_getToken e) key (MacSignInit.key_isValid e)
+          (MacSignInit.haveRead e (MacSignInit.session_getState e) (if kgb CKA_TOKEN false then 1 else 0) (if kgb CKA_PRIVATE true then 1 else 0))
+          (kgb CKA_SIGN false) (MacSignInit.isMechanismPermitted e key (MacSignInit.pMechanism e)) /\
+  mac_fits (MacSignInit.pMechanism_mechanism e) (MacSignInit.key_getUnsignedLongValue e CKA_KEY_TYPE CKK_VENDOR_DEFINED) = true.
+Proof.
+  destruct e. cbn [MacSignInit.haveRead MacSignInit.zz_rest]. intros Hb Hz. subst.
+  MacSignInit.open_env. open_head.
+  all: try bound_contra.
+  all: clear Hres; norm.
+  all: (split; [assumption|]; split; [ok_part | fits mac_fits]).
+Qed.
+
+Theorem MacVerifyInit_guards (e : MacVerifyInit.env) :
+  bounded (MacVerifyInit.haveRead e) -> MacVerifyInit.zz_rest e = SENTINEL ->
+  MacVerifyInit.app e = SENTINEL ->
+  let key := MacVerifyInit.handleManager_getObject e (MacVerifyInit.hKey e) in
+  let kgb := MacVerifyInit.key_getBooleanValue e in
+  MacVerifyInit.pMechanism e <> 0 /\
+  init_ok (MacVerifyInit.this_isInitialised e) (MacVerifyInit.handleManager_getSession e (MacVerifyInit.hSession e)) (MacVerifyInit.session_getOpType e)
+          (MacVerifyInit.session_getToken e) key (MacVerifyInit.key_isValid e)
+          (MacVerifyInit.haveRead e (MacVerifyInit.session_getState e) (if kgb CKA_TOKEN false then 1 else 0) (if kgb CKA_PRIVATE true then 1 else 0))
+          (kgb CKA_VERIFY false) (MacVerifyInit.isMechanismPermitted e key (MacVerifyInit.pMechanism e)) /\
+  mac_fits (MacVerifyInit.pMechanism_mechanism e) (MacVerifyInit.key_getUnsignedLongValue e CKA_KEY_TYPE CKK_VENDOR_DEFINED) = true.
+Proof.
+  destruct e. cbn [MacVerifyInit.haveRead MacVerifyInit.zz_rest]. intros Hb Hz. subst.
+  MacVerifyInit.open_env. open_head.
+  all: try bound_contra.
+  all: clear Hres; norm.
+  all: (split; [assumption|]; split; [ok_part | fits mac_fits]).
+Qed.
+
+Theorem SymEncryptInit_guards (e : SymEncryptInit.env) :
+  bounded (SymEncryptInit.haveRead e) -> SymEncryptInit.zz_rest e = SENTINEL ->
+  SymEncryptInit.app e = SENTINEL ->
+  let key := SymEncryptInit.handleManager_getObject e (SymEncryptInit.hKey e) in
+  let kgb := SymEncryptInit.key_getBooleanValue e in
+  SymEncryptInit.pMechanism e <> 0 /\
+  init_ok (SymEncryptInit.this_isInitialised e) (SymEncryptInit.handleManager_getSession e (SymEncryptInit.hSession e)) (SymEncryptInit.session_getOpType e)
+          (SymEncryptInit.session_getToken e) key (SymEncryptInit.key_isValid e)
+          (SymEncryptInit.haveRead e (SymEncryptInit.session_getState e) (if kgb CKA_TOKEN false then 1 else 0) (if kgb CKA_PRIVATE true then 1 else 0))
+          (kgb CKA_ENCRYPT false) (SymEncryptInit.isMechanismPermitted e key (SymEncryptInit.pMechanism e)) /\
+  sym_fits (SymEncryptInit.pMechanism_mechanism e) (SymEncryptInit.key_getUnsignedLongValue e CKA_KEY_TYPE CKK_VENDOR_DEFINED) = true.
+Proof.
+  destruct e. cbn [SymEncryptInit.haveRead SymEncryptInit.zz_rest]. intros Hb Hz. subst.
+  SymEncryptInit.open_env. open_head.
+  all: try bound_contra.
+  all: clear Hres; norm.
+  all: (split; [assumption|]; split; [ok_part | fits sym_fits]).
+Qed.
+
+Theorem SymDecryptInit_guards (e : SymDecryptInit.env) :
+  bounded (SymDecryptInit.haveRead e) -> SymDecryptInit.zz_rest e = SENTINEL ->
+  SymDecryptInit.app e = SENTINEL ->
+  let key := SymDecryptInit.handleManager_getObject e (SymDecryptInit.hKey e) in
+  let kgb := SymDecryptInit.key_getBooleanValue e in
+  SymDecryptInit.pMechanism e <> 0 /\
+  init_ok (SymDecryptInit.this_isInitialised e) (SymDecryptInit.handleManager_getSession e (SymDecryptInit.hSession e)) (SymDecryptInit.session_getOpType e)
+          (SymDecryptInit.session_getToken e) key (SymDecryptInit.key_isValid e)
+          (SymDecryptInit.haveRead e (SymDecryptInit.session_getState e) (if kgb CKA_TOKEN false then 1 else 0) (if kgb CKA_PRIVATE true then 1 else 0))
+          (kgb CKA_DECRYPT false) (SymDecryptInit.isMechanismPermitted e key (SymDecryptInit.pMechanism e)) /\
+  sym_fits (SymDecryptInit.pMechanism_mechanism e) (SymDecryptInit.key_getUnsignedLongValue e CKA_KEY_TYPE CKK_VENDOR_DEFINED) = true.
+Proof.
+  destruct e. cbn [SymDecryptInit.haveRead SymDecryptInit.zz_rest]. intros Hb Hz. subst.
+  SymDecryptInit.open_env. open_head.
+  all: try bound_contra.
+  all: clear Hres; norm.
+  all: (split; [assumption|]; split; [ok_part | fits sym_fits]).
+Qed.
+
+Theorem AsymEncryptInit_guards (e : AsymEncryptInit.env) :
+  bounded (AsymEncryptInit.haveRead e) -> AsymEncryptInit.zz_rest e = SENTINEL ->
+  bounded1 (AsymEncryptInit.MechParamCheckRSAPKCSOAEP e) ->
+  AsymEncryptInit.app e = SENTINEL ->
+  let key := AsymEncryptInit.handleManager_getObject e (AsymEncryptInit.hKey e) in
+  let kgb := AsymEncryptInit.key_getBooleanValue e in
+  AsymEncryptInit.pMechanism e <> 0 /\
+  init_ok (AsymEncryptInit.this_isInitialised e) (AsymEncryptInit.handleManager_getSession e (AsymEncryptInit.hSession e)) (AsymEncryptInit.session_getOpType e)
+          (AsymEncryptInit.session_getToken e) key (AsymEncryptInit.key_isValid e)
+          (AsymEncryptInit.haveRead e (AsymEncryptInit.session_getState e) (if kgb CKA_TOKEN false then 1 else 0) (if kgb CKA_PRIVATE true then 1 else 0))
+          (kgb CKA_ENCRYPT false) (AsymEncryptInit.isMechanismPermitted e key (AsymEncryptInit.pMechanism e)) /\
+  rsa_crypt_fits (AsymEncryptInit.pMechanism_mechanism e) (AsymEncryptInit.key_getUnsignedLongValue e CKA_KEY_TYPE CKK_VENDOR_DEFINED) = true.
+Proof.
+  destruct e. cbn [AsymEncryptInit.haveRead AsymEncryptInit.zz_rest AsymEncryptInit.MechParamCheckRSAPKCSOAEP]. intros Hb Hz Ho. subst.
+  AsymEncryptInit.open_env. open_head.
+  all: try bound_contra.
+  all: clear Hres; norm.
+  all: (split; [assumption|]; split; [ok_part | fits rsa_crypt_fits]).
+Qed.
+
+Theorem AsymDecryptInit_guards (e : AsymDecryptInit.env) :
+  bounded (AsymDecryptInit.haveRead e) -> AsymDecryptInit.zz_rest e = SENTINEL ->
+  AsymDecryptInit.app e = SENTINEL ->
+  let key := AsymDecryptInit.handleManager_getObject e (AsymDecryptInit.hKey e) in
+  let kgb := AsymDecryptInit.key_getBooleanValue e in
+  AsymDecryptInit.pMechanism e <> 0 /\
+  init_ok (AsymDecryptInit.this_isInitialised e) (AsymDecryptInit.handleManager_getSession e (AsymDecryptInit.hSession e)) (AsymDecryptInit.session_getOpType e)
+          (AsymDecryptInit.session_getToken e) key (AsymDecryptInit.key_isValid e)
+          (AsymDecryptInit.haveRead e (AsymDecryptInit.session_getState e) (if kgb CKA_TOKEN false then 1 else 0) (if kgb CKA_PRIVATE true then 1 else 0))
+          (kgb CKA_DECRYPT false) (AsymDecryptInit.isMechanismPermitted e key (AsymDecryptInit.pMechanism e)) /\
+  rsa_crypt_fits (AsymDecryptInit.pMechanism_mechanism e) (AsymDecryptInit.key_getUnsignedLongValue e CKA_KEY_TYPE CKK_VENDOR_DEFINED) = true.
+Proof.
+  destruct e. cbn [AsymDecryptInit.haveRead AsymDecryptInit.zz_rest]. intros Hb Hz. subst.
+  AsymDecryptInit.open_env. open_head.
+  all: try bound_contra.
+  all: clear Hres; norm.
+  all: (split; [assumption|]; split; [ok_part | fits rsa_crypt_fits]).
+Qed.
+
+Theorem AsymSignInit_guards (e : AsymSignInit.env) :
+  bounded (AsymSignInit.haveRead e) -> AsymSignInit.zz_rest e = SENTINEL ->
+  AsymSignInit.app e = SENTINEL ->
+  let key := AsymSignInit.handleManager_getObject e (AsymSignInit.hKey e) in
+  let kgb := AsymSignInit.key_getBooleanValue e in
+  AsymSignInit.pMechanism e <> 0 /\
+  init_ok (AsymSignInit.this_isInitialised e) (AsymSignInit.handleManager_getSession e (AsymSignInit.hSession e)) (AsymSignInit.session_getOpType e)
+          (AsymSignInit.session_getToken e) key (AsymSignInit.key_isValid e)
+          (AsymSignInit.haveRead e (AsymSignInit.session_getState e) (if kgb CKA_TOKEN false then 1 else 0) (if kgb CKA_PRIVATE true then 1 else 0))
+          (kgb CKA_SIGN false) (AsymSignInit.isMechanismPermitted e key (AsymSignInit.pMechanism e)) /\
+  sign_fits (AsymSignInit.pMechanism_mechanism e) (AsymSignInit.key_getUnsignedLongValue e CKA_CLASS CKO_VENDOR_DEFINED) (AsymSignInit.key_getUnsignedLongValue e CKA_KEY_TYPE CKK_VENDOR_DEFINED) = true.
+Proof.
+  destruct e. cbn [AsymSignInit.haveRead AsymSignInit.zz_rest]. intros Hb Hz. subst.
+  AsymSignInit.open_env. open_head.
+  all: try bound_contra.
+  all: clear Hres; norm.
+  all: (split; [assumption|]; split; [ok_part | fits sign_fits]).
+Qed.
+
+Theorem AsymVerifyInit_guards (e : AsymVerifyInit.env) :
+  bounded (AsymVerifyInit.haveRead e) -> AsymVerifyInit.zz_rest e = SENTINEL ->
+  AsymVerifyInit.app e = SENTINEL ->
+  let key := AsymVerifyInit.handleManager_getObject e (AsymVerifyInit.hKey e) in
+  let kgb := AsymVerifyInit.key_getBooleanValue e in
+  AsymVerifyInit.pMechanism e <> 0 /\
+  init_ok (AsymVerifyInit.this_isInitialised e) (AsymVerifyInit.handleManager_getSession e (AsymVerifyInit.hSession e)) (AsymVerifyInit.session_getOpType e)
+          (AsymVerifyInit.session_getToken e) key (AsymVerifyInit.key_isValid e)
+          (AsymVerifyInit.haveRead e (AsymVerifyInit.session_getState e) (if kgb CKA_TOKEN false then 1 else 0) (if kgb CKA_PRIVATE true then 1 else 0))
+          (kgb CKA_VERIFY false) (AsymVerifyInit.isMechanismPermitted e key (AsymVerifyInit.pMechanism e)) /\
+  verify_fits (AsymVerifyInit.pMechanism_mechanism e) (AsymVerifyInit.key_getUnsignedLongValue e CKA_CLASS CKO_VENDOR_DEFINED) (AsymVerifyInit.key_getUnsignedLongValue e CKA_KEY_TYPE CKK_VENDOR_DEFINED) = true.
+Proof.
+  destruct e. cbn [AsymVerifyInit.haveRead AsymVerifyInit.zz_rest]. intros Hb Hz. subst.
+  AsymVerifyInit.open_env. open_head.
+  all: try bound_contra.
+  all: clear Hres; norm.
+  all: (split; [assumption|]; split; [ok_part | fits verify_fits]).
+Qed.
 
 Ltac fin :=
   repeat match goal with
@@ -64,135 +258,169 @@ Ltac fin :=
           cbn [N.eqb Pos.eqb orb andb negb Bool.eqb] in *; norm; congruence]
       end.
 
-Section KeyedInit.
-  Variables (go gs : N -> N) (hr : N -> N -> N -> N) (imp : N -> N -> bool) (kgb : N -> bool -> bool) (kgu : N -> N -> N)
-            (kiv : bool) (sot sst stok ini hS pM hK : N).
-  Hypothesis Hb : bounded hr.
-  Let acc := hr sst (if kgb CKA_TOKEN false then 1 else 0) (if kgb CKA_PRIVATE true then 1 else 0).
 
-  Theorem SymEncryptInit_guards :
-    gen_SoftHSM__SymEncryptInit go gs hr imp kgb kgu kiv sot sst stok ini SENTINEL hS pM hK = SENTINEL ->
-    pM <> 0 /\ init_ok ini (gs hS) sot stok (go hK) kiv acc (kgb CKA_ENCRYPT false) (imp (go hK) pM).
-  Proof.
-    open_guards gen_SoftHSM__SymEncryptInit; try (bound_contra hr Hb). finish_init acc.
-  Qed.
+Ltac bound_more :=
+  match goal with
+  | H : ?x = SENTINEL, Hb : ?x < SENTINEL |- _ => rewrite H in Hb; vm_compute in Hb; discriminate Hb
+  end.
 
-  Theorem SymDecryptInit_guards :
-    gen_SoftHSM__SymDecryptInit go gs hr imp kgb kgu kiv sot sst stok ini SENTINEL hS pM hK = SENTINEL ->
-    pM <> 0 /\ init_ok ini (gs hS) sot stok (go hK) kiv acc (kgb CKA_DECRYPT false) (imp (go hK) pM).
-  Proof. open_guards gen_SoftHSM__SymDecryptInit; try (bound_contra hr Hb). finish_init acc. Qed.
-
-  Theorem AsymDecryptInit_guards :
-    gen_SoftHSM__AsymDecryptInit go gs hr imp kgb kgu kiv sot sst stok ini SENTINEL hS pM hK = SENTINEL ->
-    pM <> 0 /\ init_ok ini (gs hS) sot stok (go hK) kiv acc (kgb CKA_DECRYPT false) (imp (go hK) pM).
-  Proof. open_guards gen_SoftHSM__AsymDecryptInit; try (bound_contra hr Hb). finish_init acc. Qed.
-
-  Theorem MacSignInit_guards :
-    gen_SoftHSM__MacSignInit go gs hr imp kgb kgu kiv sot sst stok ini SENTINEL hS pM hK = SENTINEL ->
-    pM <> 0 /\ init_ok ini (gs hS) sot stok (go hK) kiv acc (kgb CKA_SIGN false) (imp (go hK) pM).
-  Proof. open_guards gen_SoftHSM__MacSignInit; try (bound_contra hr Hb). finish_init acc. Qed.
-
-  Theorem MacVerifyInit_guards :
-    gen_SoftHSM__MacVerifyInit go gs hr imp kgb kgu kiv sot sst stok ini SENTINEL hS pM hK = SENTINEL ->
-    pM <> 0 /\ init_ok ini (gs hS) sot stok (go hK) kiv acc (kgb CKA_VERIFY false) (imp (go hK) pM).
-  Proof. open_guards gen_SoftHSM__MacVerifyInit; try (bound_contra hr Hb). finish_init acc. Qed.
-
-  Theorem AsymSignInit_guards :
-    gen_SoftHSM__AsymSignInit go gs hr imp kgb kiv sot sst stok ini SENTINEL hS pM hK = SENTINEL ->
-    pM <> 0 /\ init_ok ini (gs hS) sot stok (go hK) kiv acc (kgb CKA_SIGN false) (imp (go hK) pM).
-  Proof. open_guards gen_SoftHSM__AsymSignInit; try (bound_contra hr Hb). finish_init acc. Qed.
-
-  Theorem AsymVerifyInit_guards :
-    gen_SoftHSM__AsymVerifyInit go gs hr imp kgb kiv sot sst stok ini SENTINEL hS pM hK = SENTINEL ->
-    pM <> 0 /\ init_ok ini (gs hS) sot stok (go hK) kiv acc (kgb CKA_VERIFY false) (imp (go hK) pM).
-  Proof. open_guards gen_SoftHSM__AsymVerifyInit; try (bound_contra hr Hb). finish_init acc. Qed.
-
-  Theorem AsymEncryptInit_guards (oaep : N -> N) (mech : N) :
-    bounded1 oaep ->
-    gen_SoftHSM__AsymEncryptInit oaep go gs hr imp kgb kgu kiv mech sot sst stok ini SENTINEL hS pM hK = SENTINEL ->
-    pM <> 0 /\ init_ok ini (gs hS) sot stok (go hK) kiv acc (kgb CKA_ENCRYPT false) (imp (go hK) pM).
-  Proof.
-    intros Ho. open_guards gen_SoftHSM__AsymEncryptInit; try (bound_contra hr Hb);
-    try (match goal with H : oaep ?a = SENTINEL |- _ => pose proof (Ho a) as Hx; rewrite H in Hx; vm_compute in Hx; discriminate Hx end);
-    finish_init acc.
-  Qed.
-End KeyedInit.
-
-(* ---- C_WrapKey: an unextractable key is never wrapped; a WRAP_WITH_TRUSTED key only under a trusted key; the
-   wrapping key needs CKA_WRAP, a permitted mechanism and the class / type the mechanism asks for ---------------- *)
-Section Wrap.
-  Variables (oaep : N -> N) (aima : N) (go gs : N -> N) (hr : N -> N -> N -> N) (imp : N -> N -> bool)
-            (kgb : N -> bool -> bool) (kgu : N -> N -> N) (kiv : bool) (mech mpar mparlen sst stok ini : N)
-            (wae wga : N -> N) (wgb : N -> bool -> bool) (wgu : N -> N -> N) (wiv : bool) (hS pM hW hK pW pL : N).
-  Hypothesis Hb : bounded hr.
-  Hypothesis Ho : bounded1 oaep.
-
-  Theorem WrapKey_guards :
-    gen_SoftHSM__C_WrapKey oaep aima go gs hr imp kgb kgu kiv mech mpar mparlen sst stok ini wae wga wgb wgu wiv SENTINEL hS pM hW hK pW pL = SENTINEL ->
-    kgb CKA_EXTRACTABLE false = true /\
-    (kgb CKA_WRAP_WITH_TRUSTED false = true -> wgb CKA_TRUSTED false = true) /\
-    wgb CKA_WRAP false = true /\ imp (go hW) pM = true /\
-    hr sst (if wgb CKA_TOKEN false then 1 else 0) (if wgb CKA_PRIVATE true then 1 else 0) = CKR_OK /\
-    hr sst (if kgb CKA_TOKEN false then 1 else 0) (if kgb CKA_PRIVATE true then 1 else 0) = CKR_OK /\
-    ((mech = CKM_AES_KEY_WRAP \/ mech = CKM_AES_KEY_WRAP_PAD) -> wgu CKA_CLASS CKO_VENDOR_DEFINED = CKO_SECRET_KEY /\ wgu CKA_KEY_TYPE CKK_VENDOR_DEFINED = CKK_AES) /\
-    ((mech = CKM_RSA_PKCS \/ mech = CKM_RSA_PKCS_OAEP) -> wgu CKA_CLASS CKO_VENDOR_DEFINED = CKO_PUBLIC_KEY /\ wgu CKA_KEY_TYPE CKK_VENDOR_DEFINED = CKK_RSA).
-  Proof.
-    open_guards gen_SoftHSM__C_WrapKey; try (bound_contra hr Hb);
-    try (match goal with H : oaep ?a = SENTINEL |- _ => pose proof (Ho a) as Hx; rewrite H in Hx; vm_compute in Hx; discriminate Hx end);
-    cbv [CKA_EXTRACTABLE CKA_WRAP_WITH_TRUSTED CKA_TRUSTED CKA_WRAP CKA_TOKEN CKA_PRIVATE CKR_OK CKM_AES_KEY_WRAP CKM_AES_KEY_WRAP_PAD
-         CKA_CLASS CKO_VENDOR_DEFINED CKO_SECRET_KEY CKA_KEY_TYPE CKK_VENDOR_DEFINED CKK_AES CKM_RSA_PKCS CKM_RSA_PKCS_OAEP CKO_PUBLIC_KEY CKK_RSA] in *;
-    clear Hres; fin.
-  Qed.
-End Wrap.
-
-(* ---- C_UnwrapKey: the unwrapping key needs CKA_UNWRAP, a permitted mechanism and the class / type the mechanism
-   asks for ---------------------------------------------------------------------------------------------------------- *)
-Section Unwrap.
-  Variables (oaep : N -> N) (go gs : N -> N) (hr : N -> N -> N -> N) (imp : N -> N -> bool)
-            (mech mpar mparlen sst stok ini : N) (ugb : N -> bool -> bool) (ugu : N -> N -> N) (uiv : bool)
-            (hS pM hU pW wlen pT n ph : N).
-  Hypothesis Hb : bounded hr.
-  Hypothesis Ho : bounded1 oaep.
-
-  Theorem UnwrapKey_guards :
-    gen_SoftHSM__C_UnwrapKey oaep go gs hr imp mech mpar mparlen sst stok ini ugb ugu uiv SENTINEL hS pM hU pW wlen pT n ph = SENTINEL ->
-    ugb CKA_UNWRAP false = true /\ imp (go hU) pM = true /\
-    hr sst (if ugb CKA_TOKEN false then 1 else 0) (if ugb CKA_PRIVATE true then 1 else 0) = CKR_OK /\
-    ((mech = CKM_AES_KEY_WRAP \/ mech = CKM_AES_KEY_WRAP_PAD) -> ugu CKA_CLASS CKO_VENDOR_DEFINED = CKO_SECRET_KEY /\ ugu CKA_KEY_TYPE CKK_VENDOR_DEFINED = CKK_AES) /\
-    ((mech = CKM_RSA_PKCS \/ mech = CKM_RSA_PKCS_OAEP) -> ugu CKA_CLASS CKO_VENDOR_DEFINED = CKO_PRIVATE_KEY /\ ugu CKA_KEY_TYPE CKK_VENDOR_DEFINED = CKK_RSA).
-  Proof.
-    open_guards gen_SoftHSM__C_UnwrapKey; try (bound_contra hr Hb);
-    try (match goal with H : oaep ?a = SENTINEL |- _ => pose proof (Ho a) as Hx; rewrite H in Hx; vm_compute in Hx; discriminate Hx end);
-    cbv [CKA_UNWRAP CKA_TOKEN CKA_PRIVATE CKR_OK CKM_AES_KEY_WRAP CKM_AES_KEY_WRAP_PAD
-         CKA_CLASS CKO_VENDOR_DEFINED CKO_SECRET_KEY CKA_KEY_TYPE CKK_VENDOR_DEFINED CKK_AES CKM_RSA_PKCS CKM_RSA_PKCS_OAEP CKO_PRIVATE_KEY CKK_RSA] in *;
-    clear Hres; fin.
-  Qed.
-End Unwrap.
-
-(* ---- C_DeriveKey: CKA_DERIVE and a permitted mechanism --------------------------------------------------------- *)
-Theorem DeriveKey_guards (go gs : N -> N) (hr : N -> N -> N -> N) (imp : N -> N -> bool) (kgb : N -> bool -> bool) (kiv : bool)
-        (mech sst stok ini hS pM hB pT n ph : N) :
-  bounded hr ->
-  gen_SoftHSM__C_DeriveKey go gs hr imp kgb kiv mech sst stok ini SENTINEL hS pM hB pT n ph = SENTINEL ->
-  kgb CKA_DERIVE false = true /\ imp (go hB) pM = true /\
-  hr sst (if kgb CKA_TOKEN false then 1 else 0) (if kgb CKA_PRIVATE true then 1 else 0) = CKR_OK.
+(* ---- C_WrapKey: an unextractable key is never wrapped; a WRAP_WITH_TRUSTED key only under a trusted key; the wrapping key
+   needs CKA_WRAP, a permitted mechanism and the class / type the mechanism asks for ------------------------------------ *)
+Theorem WrapKey_guards (e : C_WrapKey.env) :
+  bounded (C_WrapKey.haveRead e) -> bounded1 (C_WrapKey.MechParamCheckRSAPKCSOAEP e) -> C_WrapKey.zz_rest e = SENTINEL ->
+  C_WrapKey.app e = SENTINEL ->
+  let kgb := C_WrapKey.key_getBooleanValue e in let wgb := C_WrapKey.wrapKey_getBooleanValue e in
+  let wgu := C_WrapKey.wrapKey_getUnsignedLongValue e in let mech := C_WrapKey.pMechanism_mechanism e in
+  let hr := C_WrapKey.haveRead e in let sst := C_WrapKey.session_getState e in
+  kgb CKA_EXTRACTABLE false = true /\
+  (kgb CKA_WRAP_WITH_TRUSTED false = true -> wgb CKA_TRUSTED false = true) /\
+  wgb CKA_WRAP false = true /\
+  C_WrapKey.isMechanismPermitted e (C_WrapKey.handleManager_getObject e (C_WrapKey.hWrappingKey e)) (C_WrapKey.pMechanism e) = true /\
+  hr sst (if wgb CKA_TOKEN false then 1 else 0) (if wgb CKA_PRIVATE true then 1 else 0) = CKR_OK /\
+  hr sst (if kgb CKA_TOKEN false then 1 else 0) (if kgb CKA_PRIVATE true then 1 else 0) = CKR_OK /\
+  ((mech = CKM_AES_KEY_WRAP \/ mech = CKM_AES_KEY_WRAP_PAD) -> wgu CKA_CLASS CKO_VENDOR_DEFINED = CKO_SECRET_KEY /\ wgu CKA_KEY_TYPE CKK_VENDOR_DEFINED = CKK_AES) /\
+  ((mech = CKM_RSA_PKCS \/ mech = CKM_RSA_PKCS_OAEP) -> wgu CKA_CLASS CKO_VENDOR_DEFINED = CKO_PUBLIC_KEY /\ wgu CKA_KEY_TYPE CKK_VENDOR_DEFINED = CKK_RSA).
 Proof.
-  intros Hb. open_guards gen_SoftHSM__C_DeriveKey; try (bound_contra hr Hb); norm;
-  cbv [CKA_DERIVE CKA_TOKEN CKA_PRIVATE CKR_OK]; repeat split; try assumption;
-  try match goal with H : ?x <> false |- ?x = true => destruct x; [reflexivity|congruence] end.
+  destruct e. cbn [C_WrapKey.haveRead C_WrapKey.zz_rest C_WrapKey.MechParamCheckRSAPKCSOAEP]. intros Hb Ho Hz. subst.
+  C_WrapKey.open_env. open_head.
+  all: try bound_contra.
+  all: cbv [CKA_EXTRACTABLE CKA_WRAP_WITH_TRUSTED CKA_TRUSTED CKA_WRAP CKA_TOKEN CKA_PRIVATE CKR_OK CKM_AES_KEY_WRAP CKM_AES_KEY_WRAP_PAD
+            CKA_CLASS CKO_VENDOR_DEFINED CKO_SECRET_KEY CKA_KEY_TYPE CKK_VENDOR_DEFINED CKK_AES CKM_RSA_PKCS CKM_RSA_PKCS_OAEP CKO_PUBLIC_KEY CKK_RSA] in *.
+  all: clear Hres; fin.
 Qed.
 
-(* ---- entry points without a key: the mechanism must be in the configured list (std::find over supportedMechanisms
-   does not return end()) -------------------------------------------------------------------------------------------- *)
-Theorem DigestInit_needs_enabled_mechanism (find : N -> N -> N -> N) (gs : N -> N) (mech sot b e ini hS pM : N) :
-  gen_SoftHSM__C_DigestInit find gs mech sot b e ini SENTINEL hS pM = SENTINEL ->
-  find b e mech <> e /\ sot = SESSION_OP_NONE /\ gs hS <> 0.
-Proof. open_guards gen_SoftHSM__C_DigestInit; norm; cbv [SESSION_OP_NONE]; repeat split; assumption. Qed.
+Theorem UnwrapKey_guards (e : C_UnwrapKey.env) :
+  bounded (C_UnwrapKey.haveRead e) -> bounded (C_UnwrapKey.haveWrite e) -> bounded1 (C_UnwrapKey.MechParamCheckRSAPKCSOAEP e) ->
+  C_UnwrapKey.hv1_rv e < SENTINEL -> C_UnwrapKey.zz_rest e = SENTINEL ->
+  C_UnwrapKey.app e = SENTINEL ->
+  let ugb := C_UnwrapKey.unwrapKey_getBooleanValue e in let ugu := C_UnwrapKey.unwrapKey_getUnsignedLongValue e in
+  let mech := C_UnwrapKey.pMechanism_mechanism e in let sst := C_UnwrapKey.session_getState e in
+  ugb CKA_UNWRAP false = true /\
+  C_UnwrapKey.isMechanismPermitted e (C_UnwrapKey.handleManager_getObject e (C_UnwrapKey.hUnwrappingKey e)) (C_UnwrapKey.pMechanism e) = true /\
+  C_UnwrapKey.haveRead e sst (if ugb CKA_TOKEN false then 1 else 0) (if ugb CKA_PRIVATE true then 1 else 0) = CKR_OK /\
+  (* the object to be created: the write check is applied to the token / private flags extracted from the template *)
+  C_UnwrapKey.haveWrite e sst (C_UnwrapKey.hv1_isOnToken e) (C_UnwrapKey.hv1_isPrivate e) = CKR_OK /\
+  ((mech = CKM_AES_KEY_WRAP \/ mech = CKM_AES_KEY_WRAP_PAD) -> ugu CKA_CLASS CKO_VENDOR_DEFINED = CKO_SECRET_KEY /\ ugu CKA_KEY_TYPE CKK_VENDOR_DEFINED = CKK_AES) /\
+  ((mech = CKM_RSA_PKCS \/ mech = CKM_RSA_PKCS_OAEP) -> ugu CKA_CLASS CKO_VENDOR_DEFINED = CKO_PRIVATE_KEY /\ ugu CKA_KEY_TYPE CKK_VENDOR_DEFINED = CKK_RSA).
+Proof.
+  destruct e. cbn [C_UnwrapKey.haveRead C_UnwrapKey.haveWrite C_UnwrapKey.zz_rest C_UnwrapKey.MechParamCheckRSAPKCSOAEP C_UnwrapKey.hv1_rv]. intros Hb Hw Ho Hrv Hz. subst.
+  C_UnwrapKey.open_env. open_head.
+  all: try bound_contra. all: try bound_more.
+  all: cbv [CKA_UNWRAP CKA_TOKEN CKA_PRIVATE CKR_OK CKM_AES_KEY_WRAP CKM_AES_KEY_WRAP_PAD
+            CKA_CLASS CKO_VENDOR_DEFINED CKO_SECRET_KEY CKA_KEY_TYPE CKK_VENDOR_DEFINED CKK_AES CKM_RSA_PKCS CKM_RSA_PKCS_OAEP CKO_PRIVATE_KEY CKK_RSA] in *.
+  all: clear Hres; fin.
+Qed.
 
-Theorem GenerateKey_needs_enabled_mechanism (find : N -> N -> N -> N) (gs : N -> N) (mech b e ini hS pM pT n ph : N) :
-  gen_SoftHSM__C_GenerateKey find gs mech b e ini SENTINEL hS pM pT n ph = SENTINEL -> find b e mech <> e /\ gs hS <> 0.
-Proof. open_guards gen_SoftHSM__C_GenerateKey; norm; repeat split; assumption. Qed.
+(* ---- C_DeriveKey, translated to the end: one of the four workers is called only if the base key has CKA_DERIVE, the
+   mechanism is permitted, the base key is accessible, AND the object to be created passes the write check with the
+   token / private flags extracted from ITS template (C01: no private object without the user logged in) -------------- *)
+Theorem DeriveKey_guards (e : C_DeriveKey.env) :
+  bounded (C_DeriveKey.haveRead e) -> bounded (C_DeriveKey.haveWrite e) -> C_DeriveKey.hv1_rv e < SENTINEL ->
+  (forall a b c d f g h i j, C_DeriveKey.deriveDH e a b c d f g h i j = SENTINEL) ->
+  (forall a b c d f g h i j, C_DeriveKey.deriveECDH e a b c d f g h i j = SENTINEL) ->
+  (forall a b c d f g h i j, C_DeriveKey.deriveEDDSA e a b c d f g h i j = SENTINEL) ->
+  (forall a b c d f g h i j, C_DeriveKey.deriveSymmetric e a b c d f g h i j = SENTINEL) ->
+  C_DeriveKey.app e = SENTINEL ->
+  let kgb := C_DeriveKey.key_getBooleanValue e in let sst := C_DeriveKey.session_getState e in
+  kgb CKA_DERIVE false = true /\
+  C_DeriveKey.isMechanismPermitted e (C_DeriveKey.handleManager_getObject e (C_DeriveKey.hBaseKey e)) (C_DeriveKey.pMechanism e) = true /\
+  C_DeriveKey.haveRead e sst (if kgb CKA_TOKEN false then 1 else 0) (if kgb CKA_PRIVATE true then 1 else 0) = CKR_OK /\
+  C_DeriveKey.haveWrite e sst (C_DeriveKey.hv1_isOnToken e) (C_DeriveKey.hv1_isPrivate e) = CKR_OK.
+Proof.
+  destruct e. cbn [C_DeriveKey.haveRead C_DeriveKey.haveWrite C_DeriveKey.hv1_rv C_DeriveKey.deriveDH C_DeriveKey.deriveECDH C_DeriveKey.deriveEDDSA C_DeriveKey.deriveSymmetric].
+  intros Hb Hw Hrv H1 H2 H3 H4.
+  C_DeriveKey.open_env. open_head.
+  all: try bound_contra. all: try bound_more.
+  all: cbv [CKA_DERIVE CKA_TOKEN CKA_PRIVATE CKR_OK] in *.
+  all: clear Hres; fin.
+Qed.
 
-Theorem GenerateKeyPair_needs_enabled_mechanism (find : N -> N -> N -> N) (gs : N -> N) (mech b e ini hS pM p1 n1 p2 n2 h1 h2 : N) :
-  gen_SoftHSM__C_GenerateKeyPair find gs mech b e ini SENTINEL hS pM p1 n1 p2 n2 h1 h2 = SENTINEL -> find b e mech <> e /\ gs hS <> 0.
-Proof. open_guards gen_SoftHSM__C_GenerateKeyPair; norm; repeat split; assumption. Qed.
+(* ---- C_GenerateKey / C_GenerateKeyPair, translated to the end: a generator runs only if the mechanism is in the
+   configured list and the object(s) to be created pass the write check with their own template flags ---------------- *)
+Theorem GenerateKey_guards (e : C_GenerateKey.env) :
+  bounded (C_GenerateKey.haveWrite e) ->
+  (forall a b c d f g, C_GenerateKey.generateAES e a b c d f g = SENTINEL) -> (forall a b c d f g, C_GenerateKey.generateDES e a b c d f g = SENTINEL) ->
+  (forall a b c d f g, C_GenerateKey.generateDES2 e a b c d f g = SENTINEL) -> (forall a b c d f g, C_GenerateKey.generateDES3 e a b c d f g = SENTINEL) ->
+  (forall a b c d f g, C_GenerateKey.generateDHParameters e a b c d f g = SENTINEL) -> (forall a b c d f g, C_GenerateKey.generateDSAParameters e a b c d f g = SENTINEL) ->
+  (forall a b c d f g, C_GenerateKey.generateGeneric e a b c d f g = SENTINEL) ->
+  C_GenerateKey.app e = SENTINEL ->
+  C_GenerateKey.find e (C_GenerateKey.supportedMechanisms_begin e) (C_GenerateKey.supportedMechanisms_end e) (C_GenerateKey.pMechanism_mechanism e) <> C_GenerateKey.supportedMechanisms_end e /\
+  C_GenerateKey.handleManager_getSession e (C_GenerateKey.hSession e) <> 0 /\
+  C_GenerateKey.haveWrite e (C_GenerateKey.session_getState e) (C_GenerateKey.hv1_isOnToken e) (C_GenerateKey.hv1_isPrivate e) = CKR_OK.
+Proof.
+  destruct e. cbn [C_GenerateKey.haveWrite C_GenerateKey.generateAES C_GenerateKey.generateDES C_GenerateKey.generateDES2 C_GenerateKey.generateDES3
+                   C_GenerateKey.generateDHParameters C_GenerateKey.generateDSAParameters C_GenerateKey.generateGeneric].
+  intros Hw H1 H2 H3 H4 H5 H6 H7.
+  C_GenerateKey.open_env. open_head.
+  all: try bound_contra.
+  all: cbv [CKR_OK] in *.
+  all: clear Hres; fin.
+Qed.
+
+Theorem GenerateKeyPair_guards (e : C_GenerateKeyPair.env) :
+  (forall a b c, C_GenerateKeyPair.haveWrite e a b c < SENTINEL) ->
+  (forall a b c d f g h i j k l, C_GenerateKeyPair.generateDH e a b c d f g h i j k l = SENTINEL) ->
+  (forall a b c d f g h i j k l, C_GenerateKeyPair.generateDSA e a b c d f g h i j k l = SENTINEL) ->
+  (forall a b c d f g h i j k l, C_GenerateKeyPair.generateEC e a b c d f g h i j k l = SENTINEL) ->
+  (forall a b c d f g h i j k l, C_GenerateKeyPair.generateED e a b c d f g h i j k l = SENTINEL) ->
+  (forall a b c d f g h i j k l, C_GenerateKeyPair.generateGOST e a b c d f g h i j k l = SENTINEL) ->
+  (forall a b c d f g h i j k l, C_GenerateKeyPair.generateRSA e a b c d f g h i j k l = SENTINEL) ->
+  C_GenerateKeyPair.app e = SENTINEL ->
+  C_GenerateKeyPair.find e (C_GenerateKeyPair.supportedMechanisms_begin e) (C_GenerateKeyPair.supportedMechanisms_end e) (C_GenerateKeyPair.pMechanism_mechanism e)
+    <> C_GenerateKeyPair.supportedMechanisms_end e /\
+  (* one write check for both halves: on the token if either is, private if either is *)
+  C_GenerateKeyPair.haveWrite e (C_GenerateKeyPair.session_getState e)
+    (negb (C_GenerateKeyPair.hv1_ispublicKeyToken e =? 0) || negb (C_GenerateKeyPair.hv2_isprivateKeyToken e =? 0))
+    (negb (C_GenerateKeyPair.hv1_ispublicKeyPrivate e =? 0) || negb (C_GenerateKeyPair.hv2_isprivateKeyPrivate e =? 0)) = CKR_OK.
+Proof.
+  destruct e. cbn [C_GenerateKeyPair.haveWrite C_GenerateKeyPair.generateDH C_GenerateKeyPair.generateDSA C_GenerateKeyPair.generateEC C_GenerateKeyPair.generateED
+                   C_GenerateKeyPair.generateGOST C_GenerateKeyPair.generateRSA].
+  intros Hw H1 H2 H3 H4 H5 H6.
+  C_GenerateKeyPair.open_env. open_head.
+  all: try (match goal with H : ?f ?a ?b ?c = SENTINEL |- _ => pose proof (Hw a b c) as Hx; rewrite H in Hx; vm_compute in Hx; discriminate Hx end).
+  all: cbv [CKR_OK] in *.
+  all: clear Hres; fin.
+Qed.
+
+(* ---- CreateObject (C_CreateObject and the object-creating half of generate / unwrap / derive): the loop over the template
+   is reached only if the write check passes for the flags extracted from the template -------------------------------- *)
+Theorem CreateObject_guards (e : CreateObject.env) :
+  bounded (CreateObject.haveWrite e) -> CreateObject.hv1_rv e < SENTINEL -> CreateObject.zz_rest e = SENTINEL ->
+  CreateObject.app e = SENTINEL ->
+  CreateObject.handleManager_getSession e (CreateObject.hSession e) <> 0 /\
+  CreateObject.haveWrite e (CreateObject.session_getState e) (CreateObject.hv1_isOnToken e) (CreateObject.hv1_isPrivate e) = CKR_OK.
+Proof.
+  destruct e. cbn [CreateObject.haveWrite CreateObject.hv1_rv CreateObject.zz_rest]. intros Hw Hrv Hz. subst.
+  CreateObject.open_env. open_head.
+  all: try bound_contra. all: try bound_more.
+  all: cbv [CKR_OK] in *.
+  all: clear Hres; fin.
+Qed.
+
+(* ---- C_CopyObject: the source object must be readable by the session and copyable ------------------------------------ *)
+Theorem CopyObject_guards (e : C_CopyObject.env) :
+  bounded (C_CopyObject.haveRead e) -> C_CopyObject.zz_rest e = SENTINEL ->
+  C_CopyObject.app e = SENTINEL ->
+  let ogb := C_CopyObject.object_getBooleanValue e in
+  C_CopyObject.haveRead e (C_CopyObject.session_getState e) (ogb CKA_TOKEN false) (ogb CKA_PRIVATE true) = CKR_OK /\
+  ogb CKA_COPYABLE true <> 0.
+Proof.
+  destruct e. cbn [C_CopyObject.haveRead C_CopyObject.zz_rest]. intros Hb Hz. subst.
+  C_CopyObject.open_env. open_head.
+  all: try bound_contra.
+  all: cbv [CKR_OK CKA_TOKEN CKA_PRIVATE CKA_COPYABLE] in *.
+  all: clear Hres; fin.
+Qed.
+
+(* ---- C_DigestInit: the mechanism must be in the configured list ---------------------------------------------------- *)
+Theorem DigestInit_guards (e : C_DigestInit.env) :
+  C_DigestInit.zz_rest e = SENTINEL -> C_DigestInit.app e = SENTINEL ->
+  C_DigestInit.find e (C_DigestInit.supportedMechanisms_begin e) (C_DigestInit.supportedMechanisms_end e) (C_DigestInit.pMechanism_mechanism e)
+    <> C_DigestInit.supportedMechanisms_end e /\
+  C_DigestInit.session_getOpType e = SESSION_OP_NONE /\ C_DigestInit.handleManager_getSession e (C_DigestInit.hSession e) <> 0.
+Proof.
+  destruct e. cbn [C_DigestInit.zz_rest]. intros Hz. subst.
+  C_DigestInit.open_env. open_head.
+  all: cbv [SESSION_OP_NONE] in *.
+  all: clear Hres; fin.
+Qed.
